@@ -30,7 +30,8 @@ MOD2 = "bec2format.bec2file"
 ASSUMPTIONS = [
     "conf_dict_to_tlv through its contract (C10); ConfigId.create_from_* through their contract (C12) in the L1 part",
     "list.append / del list[i] / dict.pop behave as documented (native)",
-    "set_config is proved for files of up to 3 components at L1 (bounded in count); _get_config_ndx for any count",
+    "set_config: any number of components through the contract of _get_config_ndx (C11/set_config.any-number-of-components); "
+    "files of up to 3 components are additionally executed without that abstraction",
 ]
 HAS = z3.Function("HASTYPE", z3.IntSort(), z3.BoolSort())
 TY = z3.Function("TYPEVAL", z3.IntSort(), z3.IntSort())
@@ -147,6 +148,69 @@ def _set_config(vc, n):
     vc.prove("encodes-only-the-most-recent-configuration", last.blob == want)
     vc.prove("comments-untouched", dict(f.comments) == comments)
     vc.cover("updated")
+
+
+# set_config on a file with ANY number of components (modular: _get_config_ndx by the contract proved above)
+@proof("C11/set_config.any-number-of-components", functions=[(MOD, "Bf3File.set_config")],
+       family=lambda seed, tier: (d for k in (4, 5, 6, 9) for d in fam_set(k)(seed, tier)))
+def set_config_any(vc):
+    M = vc.module(MOD)
+    if not vc.symbolic:
+        vc._get("types")
+        return _set_config(vc, len(vc.inputs["types"]))
+    n = vc.int("n", 0, 1 << 20)
+    J0 = vc.int("J0", 0, 1 << 20)
+    blk = vc.bytes("newblock", vc.int("bl", 1, 117))
+    vc.patch(M, "conf_dict_to_tlv", lambda cfg: [blk])
+
+    def cfg(j):
+        jj = core.toint(j)
+        return z3.And(HAS(jj), TY(jj) == 3)
+
+    def elem(j):
+        c = M.Bf3Component.__new__(M.Bf3Component)
+        c._j = SInt(core.toint(j))      # ghost: which of the old components this is
+        return c
+
+    # wf(F): at most one configuration among the old components (instantiated at the two indices the proof talks about)
+    f = M.Bf3File.__new__(M.Bf3File)
+    comments = {"Creator": "x", "Configuration": "old"}
+    f.comments = dict(comments)
+    f.components = AbsList("comps", n, elem)
+    found = vc.fresh_int("found", 0, 1)
+    r = vc.fresh_int("r", 0, 1 << 20)
+
+    def ndx_by_contract():
+        # contract of _get_config_ndx (C11/_get_config_ndx): the first configuration, KeyError iff there is none
+        if found == 1:
+            vc.assume(vc.And(r < n, core.SBool(cfg(r))))
+            return r
+        raise KeyError("Bf3 Package does not contain configuration")
+    f._get_config_ndx = ndx_by_contract
+    out = vc.call(f.set_config, {"any": "config"})
+    vc.prove("returns", out.returned, repr(out.exc))
+    if not out.returned:
+        return
+    new = f.components
+    if found == 1:
+        vc.prove("length=old-1+1", vc.len(new) == n)
+        if J0 < n - 1:
+            got = new[J0]
+            vc.prove("others-untouched-and-in-order", got._j == SInt(z3.If(core.toint(J0) >= core.toint(r), core.toint(J0) + 1,
+                                                                               core.toint(J0))))
+            # wf: the old file had at most one configuration => none of the kept components is one
+            vc.assume(core.Implies(core.toint(got._j) != core.toint(r), z3.Not(cfg(got._j))))
+            vc.prove("old-configuration-removed", core.SBool(z3.Not(cfg(got._j))))
+            vc.cover("replaced")
+    else:
+        vc.prove("length=old+1", vc.len(new) == n + 1)
+        if J0 < n:
+            vc.prove("others-untouched-and-in-order", new[J0]._j == J0)
+            vc.cover("added")
+    last = new[vc.len(new) - 1]
+    vc.prove("new-configuration-last", dict(last.description).get(0xC3) == b"\x03" and last.encrypt_by_session_key is True)
+    vc.prove("encodes-only-the-most-recent-configuration", last.blob == vc.cat(vc.be(vc.len(blk), 1), blk, b"\x00"))
+    vc.prove("comments-untouched", dict(f.comments) == comments)
 
 
 for _n in (0, 1, 2, 3):
